@@ -177,6 +177,9 @@ def transfers(profile, cfg, adj):
             # a non-seekable stream that nevertheless HAS seek/tell
             # attributes (like a pipe's buffered writer): seekable() is False
             'seek_attr': st.sampled_from([False, False, True]),
+            # a destination whose base name is exactly 255 characters long
+            'longname': (st.sampled_from([False, False, False, True])
+                         if profile.get('long_names') else st.just(False)),
             'subs': subs}))
     if 'copy' in types:
         alts.append(st.fixed_dictionaries({
